@@ -148,7 +148,10 @@ def new_managed(I, cls, label="mo", attached=True):
     ot = object_type_of(cls)
     if ot is not None:
         o.fields['_object_type'] = ot
-    I.path.event('db.load', id(o), cls.__name__, o)
+    if attached:
+        I.path.event('db.load', id(o), cls.__name__, o)
+    else:
+        I.path.event('db.fresh', id(o), cls.__name__, o)
     return o
 
 
@@ -159,6 +162,11 @@ def choose_stored_class(I, label="class"):
 
 def db_getattr(I, obj, cls_attr_owner, name, a):
     """Lazy creation of a column value on a stored object."""
+    orig = obj.meta.get('copy_of')
+    if orig is not None:
+        v = I.getattr(orig, name)
+        obj.fields[name] = list(v) if isinstance(v, list) else v
+        return obj.fields[name]
     if obj.meta.get('attached') is False and not obj.meta.get('added'):
         # a freshly constructed (transient) mapped object: unset columns read as None / empty
         if name in ('names', '_names', 'object_groups', 'app_specific_info'):
@@ -323,6 +331,18 @@ class DbSession(object):
         return None
 
     @model
+    def begin_nested(I, args, kw):
+        """SAVEPOINT: a transaction boundary of its own (with the stock SQLite driver its release
+        can commit what was written so far); recorded so that the discipline predicates see it."""
+        I.path.event('db.savepoint')
+        return Obj(Savepoint, {}, 'savepoint')
+
+    @model
+    def begin(I, args, kw):
+        I.path.event('db.savepoint')
+        return Obj(Savepoint, {}, 'transaction')
+
+    @model
     def rollback(I, args, kw):
         I.path.event('db.rollback')
         return None
@@ -338,6 +358,22 @@ class DbSession(object):
 
     @model
     def close(I, args, kw):
+        return None
+
+
+class Savepoint(object):
+    @model
+    def __enter__(I, args, kw):
+        return args[0]
+
+    @model
+    def __exit__(I, args, kw):
+        I.path.event('db.savepoint.release')
+        return False
+
+    @model
+    def commit(I, args, kw):
+        I.path.event('db.savepoint.release')
         return None
 
 
